@@ -535,8 +535,11 @@ def jobs_kernels():
             jobs.append((f'min {f} fiat {fn}', fiat.check_kernels, (f, [fn])))
     return jobs
 
-def jobs_C11():
+def jobs_C11(with_from_str=True):
     jobs = []
+    # decimal parsing (arkworks build only: the minimal build has no FromStr); registered under C11 only, not in the shared field layer
+    if with_from_str:
+        for F in ('Fq', 'Fr', 'Fp'): jobs.append((f'ark {F} FromStr (decimal digit loop)', check_from_str, (F,)))
     for b in ('ark', 'min'):
         for F in ('Fq', 'Fr', 'Fp'): jobs.append((f'{b} {F} reduction of byte strings', check_mod_order, (b, F)))
     for F in ('Fq', 'Fr', 'Fp'): jobs.append((f'ark {F} integers/limbs/bytes/flags', check_w_ark, (F,)))
@@ -556,7 +559,7 @@ def jobs_C11():
 def jobs_shared():
     """field-level jobs that C12 (backend equivalence) re-uses"""
     seen = set(); out = []
-    for j in jobs_C10() + jobs_C11():
+    for j in jobs_C10() + jobs_C11(with_from_str=False):
         if j[0] in seen: continue
         seen.add(j[0]); out.append(j)
     return out
@@ -878,3 +881,69 @@ def check_ord_hash(build, F):
         obs.append(Ob(name, 'proved' if good and n else 'violated', '' if good else 'the hashed bytes are not the canonical bytes of the value', 0, 'mirsym path + z3 QF_BV', None, None if good and n else {'kind': 'hash', 'field': F, 'build': build}))
     except Unsupported as e: obs.append(Ob(name, 'inconclusive', str(e), 0, 'mirsym'))
     return obs
+
+# ---------------------------------------------------------------------------------------------- FromStr (decimal digit loop)
+class _SymChar:
+    def __init__(s, i): s.i = i
+    def __deepcopy__(s, memo): return s
+class _SymDigit(_SymChar): pass
+class _CharsIt:
+    def __init__(s, n): s.n = n; s.pos = 0
+
+def check_from_str(F, max_len=None):
+    """`impl FromStr for F` (arkworks build): for a string of n arbitrary chars, n = 0..=N, the result is Err exactly when some
+    char is not a decimal digit (first non-digit position forked through `char::to_digit(c, 10)`), and otherwise
+    Ok(sum digit_i * 10^(n-1-i)) in the field - digits as free field symbols, so the identity holds for every digit value.
+    `str::chars`, `Chars::next`, `char::to_digit`, `u64::from(u32)` are modelled by their documented meaning; the conversion of
+    a digit into the field is `From<u64>` (decided by the conversions check on all u64)."""
+    from .curve import compare_fe
+    from .poly import FE
+    items = _items('ark'); obs = []; f = FN[F]
+    N = max_len or (24 if common.tier() == 'quick' else 90)
+    it = mirsym.find_item(items, rf'^fields::{f}::arkworks::<impl at [^>]*>::from_str$')
+    def m_chars(I, fr, fn, a): return _CharsIt(a[0].n) if isinstance(a[0], _SymStr) else NotImplemented
+    def m_next(I, fr, fn, a):
+        c = a[0]
+        while isinstance(c, Ref): c = I.deref(c)
+        if not isinstance(c, _CharsIt): return NotImplemented
+        if c.pos >= c.n: return models.none()
+        c.pos += 1; return models.some(_SymChar(c.pos - 1))
+    def m_to_digit(I, fr, fn, a):
+        if not isinstance(a[0], _SymChar): return NotImplemented
+        if a[1] != 10: raise mirsym.Unsupported('to_digit with a radix other than 10')
+        return models.some(_SymDigit(a[0].i)) if I.ctx.decide(z3.Bool(f'is_digit_{a[0].i}')) else models.none()
+    def m_widen(I, fr, fn, a): return a[0] if isinstance(a[0], _SymDigit) else NotImplemented
+    def m_from_u64(I, fr, fn, a): return FE.sym(F, f'd{a[0].i}') if isinstance(a[0], _SymDigit) else NotImplemented
+    # `Fr::from_str` starts with a stray `ark_std::dbg!(&s)` (prints to stderr): formatting / printing get empty bodies
+    stub = lambda I, fr, fn, a: models.UNIT
+    M = models.base_models(extra_fns=[(r'^core::fmt::rt::Argument::.*new_debug', stub), (r'^core::fmt::Arguments::.*new(::<.*>)?$', stub), (r'::io::stdio::_eprint$', stub),
+                                      (r'^core::str::<impl str>::chars$', m_chars), (r'^<core::str::Chars(<.*>)? as core::iter::IntoIterator>::into_iter$', lambda I, fr, fn, a: a[0]),
+                                      (r'^<core::str::Chars(<.*>)? as core::iter::Iterator>::next$', m_next), (r'^core::char::methods::<impl char>::to_digit$', m_to_digit),
+                                      (r'^<u(64|128) as core::convert::From<u32>>::from$', m_widen), (rf'^<fields::{f}::u64::wrapper::{F} as core::convert::From<u(32|64|128)>>::from$', m_from_u64)])
+    for n in range(0, N + 1):
+        name = f'ark:{F}::from_str on {n} arbitrary chars: Err iff a char is not a decimal digit, else the decimal value mod p'
+        recs = _run(items, M, lambda I, h, n=n: I.call_item(it, [_SymStr(n)]), name, obs)
+        if not recs: continue
+        bad = False; seen_ok = False
+        if len(recs) != n + 1:
+            obs.append(Ob(name, 'inconclusive', f'{len(recs)} paths, expected {n + 1} (all digits; first non-digit at each position)', 0, 'mirsym/POLY')); continue
+        for r in recs:
+            if 'panic' in r: obs.append(Ob(name, 'violated', 'panics: ' + r['panic'], 0, 'mirsym/POLY', None, {'kind': 'from_str', 'field': F, 'len': n})); bad = True; continue
+            res = r['result']; all_digits = all(r['decisions']) and len(r['decisions']) == n
+            if res.variant == 'Err':
+                if all_digits: obs.append(Ob(name, 'violated', 'Err on a string of decimal digits', 0, 'mirsym/POLY', None, {'kind': 'from_str', 'field': F, 'len': n})); bad = True
+                continue
+            if not all_digits:
+                obs.append(Ob(name, 'violated', f'Ok although char {len(r["decisions"]) - 1} is not a decimal digit', 0, 'mirsym/POLY', None, {'kind': 'from_str', 'field': F, 'len': n})); bad = True; continue
+            seen_ok = True
+            want = FE.const(F, 0)
+            for i in range(n): want = want.add(FE.sym(F, f'd{i}').mul(FE.const(F, pow(10, n - 1 - i, FIELDS[F]))))
+            c = compare_fe(name, models.D(None, res.fields[0]) if not isinstance(res.fields[0], FE) else res.fields[0], want, {}, rec=r)
+            if c.status != 'proved':
+                c.model = dict(c.model or {}, kind='from_str', field=F, len=n); obs.append(c); bad = True
+        if not bad and seen_ok: obs.append(Ob(name, 'proved', f'{n + 1} paths', 0, 'mirsym (POLY) + z3 identity'))
+    return obs
+
+class _SymStr:
+    def __init__(s, n): s.n = n
+    def __deepcopy__(s, memo): return s
